@@ -3,7 +3,7 @@
 A history is a list of ops (programs as data; every op is total so any sublist is a valid history):
   ['resp', [rec, ...]]   rec = {'pick': int, 'from': 'any'|'cached', 'ttl': int, 'flush': bool, 'sp': int, 'var': int}
   ['tick', ms]
-  ['add_listener'] | ['remove_listener', k]          (C06)
+  ['add_listener'] | ['remove_listener', k] | ['readd_listener', k, q]   (C06)
   ['arm', k, 'first'|'second', 'remove'|'add', j]    listener k mutates the listener set from inside a callback (C06)
 Datagrams are rendered by the independent encoder and injected into one real instance in the simulator, so records
 travel AsyncListener -> RecordManager -> DNSCache and purges come from the engine's own 10 s timer.
@@ -295,7 +295,7 @@ class Run:
             def async_update_records(self, zc_: Any, now: float, recs: List[Any]) -> None:
                 if not phase['inject']:
                     # outside datagram processing only the engine's periodic purge calls listeners
-                    if self.observer:
+                    if self.observer and not phase.get('readd'):
                         purges.append((now, [ident_of_record(r.new) for r in recs],
                                        [r.new is r.old for r in recs]))
                     return
@@ -405,6 +405,21 @@ class Run:
                     t = tgt[op[1] % len(tgt)]
                     zc.async_remove_listener(t)
                     t.registered = False
+            elif kind == 'readd_listener':
+                # registering a listener that is already registered (once per question is the documented way to ask for several
+                # record sets) leaves it registered once: still one pair of calls per datagram, and one removal removes it
+                tgt = [l for l in listeners if l.registered]
+                if tgt:
+                    from zeroconf import DNSQuestion
+
+                    t = tgt[op[1] % len(tgt)]
+                    q = None if not op[2] else DNSQuestion(OWNERS[TEMPLATES[op[2] % len(TEMPLATES)][1]][0], 255, 1)
+                    phase['readd'] = True      # the initial call listing cached answers to the question is no purge report
+                    try:
+                        zc.async_add_listener(t, q)
+                    finally:
+                        phase['readd'] = False
+                    run.stats['listener_readded'] = run.stats.get('listener_readded', 0) + 1
             elif kind == 'arm':
                 tgt = [l for l in listeners if l.registered]
                 if tgt:
